@@ -160,7 +160,8 @@ theorem stdPolar_skel (A : Arith V) (cfg : Cfg) (s : State V) (n : Name) : (stdP
         split <;> split <;> rfl
       · exact h
 
-theorem standardComplex_skel (A : Arith V) (cfg : Cfg) (s : State V) : (standardComplex A cfg s).1.skel = s.skel := by
+theorem standardComplex_skel (A : Arith V) (cfg : Cfg) (s : State V) (bd : List Name) :
+    (standardComplex A cfg s bd).1.skel = s.skel := by
   unfold standardComplex
   apply forNames_skel
   intro s k
